@@ -408,6 +408,64 @@ def _iter_unpack_fields(fn_node):
 
 
 
+def _byte_columns(fn_node):
+    """`for i, (b0, b1, b2, b3) in enumerate(zip(data[0::4], data[1::4], data[2::4], data[3::4]))` over a ``bytes`` parameter (the zip
+    possibly through a local bound once): every name is byte k of event i *as an int*; the shortest column (the last) has
+    len(data) // 4 entries, so exactly the complete events are visited, counted from 0.
+    -> (loop, index variable or None, [name of byte 0, .., name of byte 3]) or None."""
+    byte_params = {a.arg for a in fn_node.args.args + fn_node.args.kwonlyargs
+                   if a.annotation is not None and unparse(a.annotation) in ("bytes", "bytearray", "memoryview")}
+    for lp in ast.walk(fn_node):
+        if not isinstance(lp, ast.For):
+            continue
+        it, tgt, ivar = lp.iter, lp.target, None
+        if isinstance(it, ast.Call) and call_name(it) == "enumerate" and len(it.args) == 1 and isinstance(tgt, ast.Tuple) and len(tgt.elts) == 2 \
+                and isinstance(tgt.elts[0], ast.Name) and all(k.arg == "start" and unparse(k.value) == "0" for k in it.keywords):
+            it, tgt, ivar = it.args[0], tgt.elts[1], tgt.elts[0].id
+        it = _resolve_local(fn_node, it)
+        if not (isinstance(it, ast.Call) and call_name(it) == "zip" and len(it.args) == 4 and not it.keywords and isinstance(tgt, ast.Tuple)
+                and len(tgt.elts) == 4 and all(isinstance(t, ast.Name) for t in tgt.elts)):
+            continue
+        ok = True
+        for k, a in enumerate(it.args):
+            a = _resolve_local(fn_node, a)
+            ok = ok and isinstance(a, ast.Subscript) and isinstance(a.value, ast.Name) and a.value.id in byte_params and \
+                isinstance(a.slice, ast.Slice) and a.slice.upper is None and unparse(a.slice.step or ast.Constant(value=1)) == "4" and \
+                unparse(a.slice.lower or ast.Constant(value=0)) == str(k)
+        if ok:
+            return lp, ivar, [t.id for t in tgt.elts]
+    return None
+
+
+def _skip_test_on(fn_node, loop, names):
+    """the `if T: continue` of the loop whose test mentions only ``names``: (If node, set of names required to be 0 for the skip) with
+    the recognised forms `a == 0 and b == 0`, `not (a or b)`, `not a and not b`, `a == 0`, `not a`, `(a, b) == (0, 0)`."""
+    def zeros(t):
+        if isinstance(t, ast.BoolOp) and isinstance(t.op, ast.And):
+            parts = [zeros(v) for v in t.values]
+            return None if any(p is None for p in parts) else set().union(*parts)
+        if isinstance(t, ast.Compare) and len(t.ops) == 1 and isinstance(t.ops[0], ast.Eq):
+            l, r = t.left, t.comparators[0]
+            if isinstance(l, ast.Name) and isinstance(r, ast.Constant) and r.value == 0 and not isinstance(r.value, bool):
+                return {l.id}
+            if isinstance(l, ast.Tuple) and isinstance(r, ast.Tuple) and len(l.elts) == len(r.elts) and all(isinstance(x, ast.Name) for x in l.elts) \
+                    and all(isinstance(x, ast.Constant) and x.value == 0 for x in r.elts):
+                return {x.id for x in l.elts}
+        if isinstance(t, ast.UnaryOp) and isinstance(t.op, ast.Not):
+            o = t.operand
+            if isinstance(o, ast.Name):
+                return {o.id}
+            if isinstance(o, ast.BoolOp) and isinstance(o.op, ast.Or) and all(isinstance(v, ast.Name) for v in o.values):
+                return {v.id for v in o.values}
+        return None
+    for st in loop.body:
+        if isinstance(st, ast.If) and not st.orelse and len(st.body) == 1 and isinstance(st.body[0], ast.Continue):
+            used = {x.id for x in ast.walk(st.test) if isinstance(x, ast.Name)}
+            if used and used <= set(names):
+                return st, zeros(st.test)
+    return None, None
+
+
 def rule_r2(ctx) -> List[R.Inst]:
     M = ctx.M
     rid = "C07.R2"
@@ -525,8 +583,29 @@ def rule_r2(ctx) -> List[R.Inst]:
     if iu and iv is None or (iu and iu_var):
         iv = iu_var or iv
     f2 = M.mods[nf.mod].rel
+    bc = _byte_columns(nf.node) if not seen else None
+    vp_name = "volume_pan"
     for nm, (fmtc, lo, hi) in spec.items():
         key = f"note-event:{nm}"
+        if bc is not None:
+            # byte-column form: the loop target gives byte k of event i as an int, whatever the names
+            lp_, _iv, bn = bc
+            if nm == "enabled":
+                tst, zs = _skip_test_on(nf.node, lp_, bn)
+                if tst is None or zs is None:
+                    insts.append(R.undec(rid, key, f2, lp_.lineno, "the test that skips a disabled event is not recognised over the byte columns"))
+                elif zs == {bn[0], bn[1]}:
+                    insts.append(R.ok(rid, key, f2, tst.lineno, idiom="disabled = both bytes of the <h at [4*I:4*I+2] are zero"))
+                else:
+                    insts.append(R.viol(rid, key, f2, tst.lineno,
+                                        f"'enabled' is the <h over event bytes [4*I:4*I+2]: an event is disabled when bytes 0 and 1 are both "
+                                        f"zero; the skip tests {sorted(zs)}", construct=unparse(tst.test)))
+            else:
+                k_ = 2 if nm == "volume_pan" else 3
+                if nm == "volume_pan":
+                    vp_name = bn[k_]
+                insts.append(R.ok(rid, key, f2, lp_.lineno, idiom=f"byte {k_} of event I as an int (column data[{k_}::4])"))
+            continue
         if nm not in seen:
             insts.append(R.undec(rid, key, f2, nf.node.lineno, f"unpack of '{nm}' not found"))
             continue
@@ -543,8 +622,12 @@ def rule_r2(ctx) -> List[R.Inst]:
     # volume / pan split
     vp = [n for n in walk_no_nested(nf.node) if isinstance(n, ast.Assign) and isinstance(n.targets[0], ast.Tuple) and
           [unparse(t) for t in n.targets[0].elts] == ["volume", "pan"]]
-    if len(vp) == 1 and ((isinstance(vp[0].value, ast.Tuple) and [unparse(v) for v in vp[0].value.elts] == ["volume_pan // 16", "volume_pan % 16"]) or
-                         unparse(vp[0].value) == "divmod(volume_pan, 16)"):
+    def _nibbles(v):
+        if isinstance(v, ast.Tuple) and len(v.elts) == 2:
+            return unparse(v.elts[0]) in (f"{vp_name} // 16", f"{vp_name} >> 4") and \
+                unparse(v.elts[1]) in (f"{vp_name} % 16", f"{vp_name} & 15")
+        return unparse(v) == f"divmod({vp_name}, 16)"
+    if len(vp) == 1 and _nibbles(vp[0].value):
         insts.append(R.ok(rid, "note-event:volume/pan", f2, vp[0].lineno, idiom="high nibble volume, low nibble pan"))
     else:
         insts.append((R.viol if vp else R.undec)(rid, "note-event:volume/pan", f2, (vp[0] if vp else nf.node).lineno,
@@ -655,16 +738,42 @@ def rule_r3(ctx) -> List[R.Inst]:
     # branches of read_events_note use each constant once, in the right role
     nf = _o2j_fn(ctx, PKG + ".read_events_note")
     roles = {}
+    bc = _byte_columns(nf.node)
+    nt_name = bc[2][3] if bc is not None else "note_type"
+    # the kind of value the type field holds: a length-1 bytes (unpack "<c") or an int (a byte column / "<B")
+    nt_kind = "int" if bc is not None else None
+    if nt_kind is None:
+        fmts = {c.args[0].value for d in local_defs(nf.node, "note_type") for c in ast.walk(d)
+                if isinstance(c, ast.Call) and call_name(c) in ("unpack", "unpack_from") and c.args and isinstance(c.args[0], ast.Constant)}
+        fmts |= {f for nm_, (f, _lo, _hi, _n) in list(_iter_unpack_fields(nf.node)[0].items()) + list(_unpack_from_fields(M, nf.mod, nf.node).items())
+                 if nm_ == "note_type"}
+        kinds = {"bytes" if f[-1:] in "cs" else "int" for f in fmts}
+        nt_kind = kinds.pop() if len(kinds) == 1 else None
+    mism = []
     for n in walk_no_nested(nf.node):
-        if isinstance(n, ast.If) and isinstance(n.test, ast.Compare) and unparse(n.test.left) == "note_type" and \
+        if isinstance(n, ast.If) and isinstance(n.test, ast.Compare) and unparse(n.test.left) == nt_name and \
                 isinstance(n.test.ops[0], ast.Eq):
-            cname = unparse(n.test.comparators[0]).split(".")[-1]
+            cmp_ = _resolve_local(nf.node, n.test.comparators[0])
+            ckind = "bytes"
+            if isinstance(cmp_, ast.Subscript) and isinstance(cmp_.slice, ast.Constant) and cmp_.slice.value in (0, -1):
+                cmp_, ckind = cmp_.value, "int"
+            elif isinstance(cmp_, ast.Call) and call_name(cmp_) == "ord" and len(cmp_.args) == 1:
+                cmp_, ckind = cmp_.args[0], "int"
+            if nt_kind is not None and ckind != nt_kind:
+                mism.append((n, ckind))
+            cname = unparse(cmp_).split(".")[-1]
             body_calls = {call_name(x) for s in n.body for x in ast.walk(s) if isinstance(x, ast.Call)}
             pops = any(call_name(x) == "pop" for s in n.body for x in ast.walk(s) if isinstance(x, ast.Call))
             stores = any(isinstance(x, ast.Assign) and isinstance(x.targets[0], ast.Subscript) for s in n.body for x in ast.walk(s))
             roles[cname] = "tail" if pops else ("head" if stores and "O2JHold" in body_calls else
                                                 ("hit" if "O2JHit" in body_calls else "?"))
     want_roles = {"HIT_BYTES": "hit", "HOLD_HEAD_BYTES": "head", "HOLD_TAIL_BYTES": "tail"}
+    if mism:
+        n_, ck = mism[0]
+        return insts + [R.viol(rid, "note-type-branches", M.mods[nf.mod].rel, n_.lineno,
+                               f"the type field is read as {'an int' if nt_kind == 'int' else 'a one-byte bytes'} but compared with "
+                               f"{'an int' if ck == 'int' else 'a bytes constant'}: the two are never equal, no note is ever produced",
+                               construct=unparse(n_.test))]
     insts.append(R.ok(rid, "note-type-branches", f3, nf.node.lineno, idiom="hit / head / tail branches keyed by their own constant")
                  if roles == want_roles else
                  R.viol(rid, "note-type-branches", f3, nf.node.lineno,
@@ -769,6 +878,9 @@ def rule_r5(ctx) -> List[R.Inst]:
         iu, iu_var = _iter_unpack_fields(fn.node)
         if len(loops) == 1 and len(loops[0].iter.args) == 1 and unparse(loops[0].iter.args[0]) == "event_count":
             insts.append(R.ok(rid, f"{meth}:slots", file, loops[0].lineno, idiom="for i in range(event_count)"))
+        elif not loops and _byte_columns(fn.node) is not None and _byte_columns(fn.node)[1] == iv:
+            insts.append(R.ok(rid, f"{meth}:slots", file, _byte_columns(fn.node)[0].lineno,
+                              idiom="enumerate over the four byte columns: len(data) // 4 complete events, from 0"))
         elif iu and not loops:
             # enumerate(iter_unpack(fmt, data[: event_count * size])): records 0 .. event_count - 1, counted from 0
             lp_ = next(iter(iu.values()))[3]
